@@ -518,6 +518,7 @@ fn realclock_conformance(ctx: &Ctx, rep: &mut Report) {
 // ---------------------------------------------------------------------------
 const RT: u64 = 150; // expiry in the real-time sequences (ms)
 const RT_LONG: u64 = 260; // "long" pause: > 1.5 x RT
+const RT_SHORT: u64 = 40; // "short" pause: < 0.4 x RT (two of them in a row fall into the inconclusive band)
 
 static INCONCLUSIVE: std::sync::atomic::AtomicU64 = std::sync::atomic::AtomicU64::new(0);
 
@@ -531,7 +532,7 @@ fn rt_pause(ms: u64) {
 }
 
 fn rt_acts() -> Vec<Act> {
-    vec![Act::Next, Act::OtherGet, Act::OtherPut, Act::Tick(RT_LONG)]
+    vec![Act::Next, Act::OtherGet, Act::OtherPut, Act::Tick(RT_LONG), Act::Tick(RT_SHORT)]
 }
 
 /// Runs one action sequence under the production clock. Ok(true) = every step conclusive.
@@ -588,8 +589,8 @@ fn realtime_sequences(ctx: &Ctx, rep: &mut Report) {
         rep,
         "realtime-sequences",
         &format!(
-            "production clock: every sequence of {} actions over {{next request of the transfer under test, GET on another path, PUT block on another endpoint, pause {} ms}} with expiry {} ms, download and upload; same step function and oracle as the fake-clock search, the model's time being the harness's measurement; a step whose idle times are not clearly < 0.4 x expiry or > 1.5 x expiry is discarded as inconclusive",
-            depth, RT_LONG, RT
+            "production clock: every sequence of {} actions over {{next request of the transfer under test, GET on another path, PUT block on another endpoint, pause {} ms, pause {} ms}} with expiry {} ms, download and upload; same step function and oracle as the fake-clock search, the model's time being the harness's measurement; a step whose idle times are not clearly < 0.4 x expiry or > 1.5 x expiry is discarded as inconclusive",
+            depth, RT_LONG, RT_SHORT, RT
         ),
         n,
         true,
